@@ -1,6 +1,7 @@
 package main
 
 import (
+	"go/constant"
 	"fmt"
 	"go/token"
 	"go/types"
@@ -492,6 +493,25 @@ func allocFieldStores(a *ssa.Alloc) []*ssa.Store {
 
 func c03R3(c *Ctx, r *Report) {
 	const rule = "C03-R3"
+	// the permission lookups address the stored record: (database name, database key) of one record, or ("", full key)
+	for _, site := range c.CallSites("database.Interface.getMeta", "database.Interface.getRecord") {
+		cc := site.Instr.(ssa.CallInstruction).Common()
+		a1, a2 := cc.Args[1], cc.Args[2]
+		ok, why := false, ""
+		if cst, isC := a1.(*ssa.Const); isC && cst.Value != nil && cst.Value.Kind() == constant.String && constant.StringVal(cst.Value) == "" {
+			ok = true // getDBFromKey: a2 is the full key
+		} else if n1, isCall := a1.(*ssa.Call); isCall && n1.Call.IsInvoke() && n1.Call.Method.Name() == "DatabaseName" {
+			if n2, isCall2 := a2.(*ssa.Call); isCall2 && n2.Call.IsInvoke() && n2.Call.Method.Name() == "DatabaseKey" && n2.Call.Value == n1.Call.Value {
+				ok = true
+			} else {
+				why = "the key passed next to DatabaseName() is " + vpath(a2) + ", not DatabaseKey() of the same record"
+			}
+		} else {
+			why = "unrecognised database/key pair: " + vpath(a1) + ", " + vpath(a2)
+		}
+		r.Check(ok, rule, fmt.Sprintf("%s / %s addresses the stored record", fnKey(site.Fn), calleeName(cc)),
+			"called with (\"\", full key) or (r.DatabaseName(), r.DatabaseKey())", "the permission pre-check looks up a different key than the one that is written ("+why+"): it always misses and the protected record is overwritten", c.Pos(site.Instr.Pos()))
+	}
 	r.SetFloor(rule, 20)
 	accessGuard := Guard{Name: "hasAccessPermission/CheckPermission==true", Truthy: true, Match: func(b ssa.Value) bool {
 		_, ok := isCallTo(b, fnHasAccess, fnCheckPermission)
